@@ -1298,6 +1298,9 @@ HKEYS = ['B', 'a', 'A', 'b10', 'b9', '_x']
 HVALS = ['v', '"q s"', '', 10, 0, True, False]
 
 
+HSTAT = {}
+
+
 def header_expected_directive(prefix, k, v):
     if v is True:
         return '%sdefine %s' % (prefix, k)
@@ -1355,6 +1358,11 @@ def header_case(ck, path, items, ofmt, macro, verbose=False):
     dre = re.compile(r'\s*' + re.escape(prefix) + r'\s*(define|undef)\b')
     for i, l in enumerate(lines):
         if i not in guard_idx and dre.match(l):
+            # Configuration.md: "The replacements are the same as when generating #mesondefine entries", and its pattern is
+            # "#define TOKEN 4 // If TOKEN is set to an integer or string value": nothing says what the pattern means for an empty string
+            # ('#define TOKEN ' literally, '#define TOKEN' as #mesondefine writes it), so a trailing blank is not compared, only counted
+            if l != l.rstrip(' '):
+                HSTAT['entries_with_trailing_blank_for_empty_string'] = HSTAT.get('entries_with_trailing_blank_for_empty_string', 0) + 1
             found.append((i, l.rstrip(' ')))
     exp = [header_expected_directive(prefix, k, vals[k][0]) for k in want_keys]
     if verbose:
@@ -1409,7 +1417,7 @@ def header_part(ck):
                 n += 1
                 cls = header_case(ck, path, items, ofmt, macro)
                 classes.add((cls, tuple(sorted({kind(v) if not isinstance(v, bool) else str(v) for _, v, _ in items}))))
-    ck.part('header', cases=n, cases_inserted_out_of_order=unsorted, keys=HKEYS, values=[repr(v) for v in HVALS])
+    ck.part('header', cases=n, cases_inserted_out_of_order=unsorted, keys=HKEYS, values=[repr(v) for v in HVALS], **HSTAT)
     ck.require(unsorted > 100, 'header oracle never saw keys inserted out of order')
     ck.sample({'header_items': [['b9', 10, None], ['B', True, 'd'], ['a', '', None]], 'formats': ['c', 'nasm', 'json']})
     return n, len(classes)
